@@ -294,7 +294,7 @@ class StoreMachine(LoggedMachine):
             self.rejected_then_added = 2
 
     @precondition(lambda self: not self.finished and self.store is not None and self.mode in ('w', 'a') and self.with_bulk)
-    @rule(k=st.integers(4, 6), seed=st.integers(0, 2**20), raw_id=st.integers(0, 2**40))
+    @rule(k=st.integers(4, 6), seed=st.integers(0, 2**20), raw_id=sc.FLIGHT_ID)
     def burst_add(self, k, seed, raw_id):
         """Several bulky additions in a row (more than a 1 MB cache holds), then a read of every index."""
         self.op('burst_add', k=k, seed=seed, raw_id=raw_id)
@@ -315,7 +315,7 @@ class StoreMachine(LoggedMachine):
 
     @precondition(lambda self: not self.finished and self.store is not None and self.mode in ('w', 'a', 'mem')
                   and self.cache_mb == 1 and self.model)
-    @rule(seed=st.integers(0, 2**20), raw_id=st.integers(0, 2**40))
+    @rule(seed=st.integers(0, 2**20), raw_id=sc.FLIGHT_ID)
     def add_oversize(self, seed, raw_id):
         """A trajectory whose estimated size exceeds the whole 1 MB cache: it is either stored (and then reads back) or
         refused with the store unchanged - never half-added."""
@@ -346,7 +346,7 @@ class StoreMachine(LoggedMachine):
 
     @precondition(lambda self: self.ENABLE_FAULTS and not self.finished and self.store is not None and self.mode == 'w'
                   and not self.model and not self.path.exists())
-    @rule(seed=st.integers(0, 2**20), raw_id=st.integers(0, 2**40))
+    @rule(seed=st.integers(0, 2**20), raw_id=sc.FLIGHT_ID)
     def first_add_blocked_then_retry(self, seed, raw_id):
         """The file name is taken by something else when the first trajectory arrives: the add is refused; once the
         cause is removed the same store object accepts the trajectory as number 0 and persists it."""
@@ -380,7 +380,7 @@ class StoreMachine(LoggedMachine):
 
     @precondition(lambda self: not self.finished and self.store is not None and self.mode == 'mem'
                   and 'memory_eviction_refused' in self.flags)
-    @rule(n=st.integers(1, 20), seed=st.integers(0, 2**20), raw_id=st.integers(0, 2**40))
+    @rule(n=st.integers(1, 20), seed=st.integers(0, 2**20), raw_id=sc.FLIGHT_ID)
     def add_small_after_refusal(self, n, seed, raw_id):
         """After an in-memory store refused an addition, a trajectory that still fits must get the next index."""
         self.op('add_small_after_refusal', n=n, seed=seed, raw_id=raw_id)
@@ -453,7 +453,7 @@ class StoreMachine(LoggedMachine):
                 return
 
     @precondition(lambda self: not self.finished and self.store is not None and self.mode in ('w', 'a') and self.model)
-    @rule(after=st.integers(0, 3), seed=st.integers(0, 2**20), raw_id=st.integers(0, 2**40))
+    @rule(after=st.integers(0, 3), seed=st.integers(0, 2**20), raw_id=sc.FLIGHT_ID)
     def iterate_across_add(self, after, seed, raw_id):
         """An iteration that is under way when a trajectory is added behaves like iteration over a Python list that is
         appended to: it goes on to yield the new trajectory."""
@@ -728,13 +728,16 @@ class StoreMachine(LoggedMachine):
     # ---- terminal merge with lookups (C08)
     @precondition(lambda self: self.ENABLE_MERGE and not self.finished and self.store is None and self.path.exists()
                   and self.identified and self.model)
-    @rule(extra_sizes=st.lists(st.integers(1, 3), min_size=1, max_size=2), first=st.booleans())
-    def merge_and_lookup(self, extra_sizes, first):
-        self.op('merge_and_lookup', extra_sizes=extra_sizes, first=first)
+    @rule(extra_sizes=st.lists(st.integers(1, 3), min_size=1, max_size=2), first=st.booleans(), big=st.booleans())
+    def merge_and_lookup(self, extra_sizes, first, big=False):
+        self.op('merge_and_lookup', extra_sizes=extra_sizes, first=first, big=big)
         self.ctx.evaluations += 1
         self.TS.active_in_thread = None
         parts = []
         fid = max(self.ids) + 1000 if first else 0
+        if big:
+            # identifiers that neither 32 bits nor a float64 hold exactly
+            fid = max(max(self.ids), 2**53) + 1001
         for k, size in enumerate(extra_sizes):
             p = self.dir / f'extra{k}.nc'
             descs = []
@@ -801,11 +804,11 @@ def plan_strategy(draw, lookups=False, faults=False):
     template = draw(st.sampled_from(['free', 'free', 'free', 'mem_overflow', 'append_evict']))
     if template == 'mem_overflow':
         # an in-memory store that has to refuse bulky additions, then accepts small ones
-        ops = [{'op': 'burst', 'k': draw(st.integers(3, 5)), 'seed': draw(st.integers(0, 2**20)), 'raw_id': draw(st.integers(0, 2**40))},
-               {'op': 'add_small', 'n': draw(st.integers(1, 20)), 'seed': draw(st.integers(0, 2**20)), 'raw_id': draw(st.integers(0, 2**40))},
+        ops = [{'op': 'burst', 'k': draw(st.integers(3, 5)), 'seed': draw(st.integers(0, 2**20)), 'raw_id': draw(sc.FLIGHT_ID)},
+               {'op': 'add_small', 'n': draw(st.integers(1, 20)), 'seed': draw(st.integers(0, 2**20)), 'raw_id': draw(sc.FLIGHT_ID)},
                {'op': 'read_all', 'order': 'forward'}, {'op': 'iterate'},
-               {'op': 'burst', 'k': 2, 'seed': draw(st.integers(0, 2**20)), 'raw_id': draw(st.integers(0, 2**40))},
-               {'op': 'add_small', 'n': draw(st.integers(1, 20)), 'seed': draw(st.integers(0, 2**20)), 'raw_id': draw(st.integers(0, 2**40))},
+               {'op': 'burst', 'k': 2, 'seed': draw(st.integers(0, 2**20)), 'raw_id': draw(sc.FLIGHT_ID)},
+               {'op': 'add_small', 'n': draw(st.integers(1, 20)), 'seed': draw(st.integers(0, 2**20)), 'raw_id': draw(sc.FLIGHT_ID)},
                {'op': 'read_all', 'order': 'backward'}, {'op': 'oob'}]
         if lookups:
             ops.append({'op': 'lookup_all'})
@@ -814,11 +817,11 @@ def plan_strategy(draw, lookups=False, faults=False):
     if template == 'append_evict':
         # an append session that adds more bulky trajectories than a 1 MB cache holds and reads old and new indices
         def burst(lo, hi):
-            return {'op': 'burst', 'k': draw(st.integers(lo, hi)), 'seed': draw(st.integers(0, 2**20)), 'raw_id': draw(st.integers(0, 2**40))}
+            return {'op': 'burst', 'k': draw(st.integers(lo, hi)), 'seed': draw(st.integers(0, 2**20)), 'raw_id': draw(sc.FLIGHT_ID)}
         s0 = {'mode': 'w', 'cache': draw(st.sampled_from([1, 2048])), 'ops': [burst(2, 3)]}
         s1 = {'mode': 'a', 'cache': 1, 'ops': [burst(4, 5), {'op': 'read_all', 'order': draw(st.sampled_from(['forward', 'backward', 'new_first']))},
                                                {'op': 'sync'}, {'op': 'read_all', 'order': 'new_first'}, {'op': 'iterate'}, {'op': 'oob'}]}
-        s2 = {'mode': 'a', 'cache': 1, 'ops': [{'op': 'add_small', 'n': 7, 'seed': draw(st.integers(0, 2**20)), 'raw_id': draw(st.integers(0, 2**40))},
+        s2 = {'mode': 'a', 'cache': 1, 'ops': [{'op': 'add_small', 'n': 7, 'seed': draw(st.integers(0, 2**20)), 'raw_id': draw(sc.FLIGHT_ID)},
                                                {'op': 'read_all', 'order': 'backward'}]}
         if lookups:
             s1['ops'].append({'op': 'lookup_all'})
@@ -862,9 +865,9 @@ def plan_strategy(draw, lookups=False, faults=False):
             kind = draw(st.sampled_from(choices))
             op = {'op': kind}
             if kind == 'burst':
-                op.update(k=draw(st.integers(2, 5)), seed=draw(st.integers(0, 2**20)), raw_id=draw(st.integers(0, 2**40)))
+                op.update(k=draw(st.integers(2, 5)), seed=draw(st.integers(0, 2**20)), raw_id=draw(sc.FLIGHT_ID))
             elif kind == 'oversize':
-                op.update(seed=draw(st.integers(0, 2**20)), raw_id=draw(st.integers(0, 2**40)))
+                op.update(seed=draw(st.integers(0, 2**20)), raw_id=draw(sc.FLIGHT_ID))
             elif kind == 'add_small':
                 op.update(n=draw(st.integers(1, 60)), seed=draw(st.integers(0, 2**20)), raw_id=draw(st.one_of(st.integers(0, 40), st.integers(0, 2**62))))
             elif kind == 'read_all':
